@@ -23,6 +23,42 @@ Fixpoint set_nth {A : Type} (n : nat) (x : A) (l : list A) : list A :=
 
 Inductive clear_state := Cleared | AlreadyEmpty.
 
+(* ---- the nine slot classes named in the doc comment of compute_cache_slot, written by hand from the comment
+   (the specification `slot` -- generated from the code -- is compared with in `slot_separates`) *)
+Inductive doc_class :=
+| BothKnown                      (* Slot 0: both known_dimensions were set *)
+| WidthKnown_MaxOrDefinite       (* Slot 1: width but not height known, the other dimension MaxContent or Definite *)
+| WidthKnown_MinContent          (* Slot 2: width but not height known, the other dimension MinContent *)
+| HeightKnown_MaxOrDefinite      (* Slot 3 *)
+| HeightKnown_MinContent         (* Slot 4 *)
+| Neither_MaxOrDef_MaxOrDef      (* Slot 5: x-axis MaxContent or Definite, y-axis MaxContent or Definite *)
+| Neither_MaxOrDef_Min           (* Slot 6: x-axis MaxContent or Definite, y-axis MinContent *)
+| Neither_Min_MaxOrDef           (* Slot 7 *)
+| Neither_Min_Min.               (* Slot 8 *)
+
+Definition is_min (a : avail_kind) : bool := match a with KMinContent => true | _ => false end.
+
+Definition class_of (hw hh : bool) (aw ah : avail_kind) : doc_class :=
+  match hw, hh with
+  | true, true => BothKnown
+  | true, false => if is_min ah then WidthKnown_MinContent else WidthKnown_MaxOrDefinite
+  | false, true => if is_min aw then HeightKnown_MinContent else HeightKnown_MaxOrDefinite
+  | false, false =>
+      match is_min aw, is_min ah with
+      | false, false => Neither_MaxOrDef_MaxOrDef
+      | false, true => Neither_MaxOrDef_Min
+      | true, false => Neither_Min_MaxOrDef
+      | true, true => Neither_Min_Min
+      end
+  end.
+
+Definition class_index (c : doc_class) : N :=
+  match c with
+  | BothKnown => 0 | WidthKnown_MaxOrDefinite => 1 | WidthKnown_MinContent => 2 | HeightKnown_MaxOrDefinite => 3
+  | HeightKnown_MinContent => 4 | Neither_MaxOrDef_MaxOrDef => 5 | Neither_MaxOrDef_Min => 6 | Neither_Min_MaxOrDef => 7
+  | Neither_Min_Min => 8
+  end%N.
+
 Section CacheModel.
   Context {T : Type} `{Num T}.
 
@@ -126,6 +162,42 @@ Section CacheModel.
 
   Definition run_from (c : cache) (ops : list op) : cache := fold_left step ops c.
   Definition run (ops : list op) : cache := run_from new ops.
+  (* ---- specification vocabulary used by the theorems *)
+
+  (* the operation `OStore k m o` occurs in the history and no clear follows it *)
+  Definition stored_live (ops : list op) (k : key) (m : run_mode) (o : output) : Prop :=
+    exists pre post, ops = pre ++ OStore k m o :: post /\ Forall (fun x => x <> OClear) post.
+
+  (* what a hit returns for an entry written by `store .. m so` *)
+  Definition out_of (m : run_mode) (so : output) : output :=
+    match m with PerformLayout => so | _ => from_outer_size (o_size so) end.
+
+  Definition all_none (c : cache) : Prop := final c = None /\ Forall (fun e => e = None) (meas c).
+
+  (* the key matches itself under the lookup predicate (irreflexive float values excluded, see refl_key) *)
+  Definition self_compat (k : key) : Prop :=
+    opt_eqb (kd_w k) (kd_w k) = true /\ opt_eqb (kd_h k) (kd_h k) = true /\
+    (kd_w k = None -> is_roughly_equal (av_w k) (av_w k) = true) /\
+    (kd_h k = None -> is_roughly_equal (av_h k) (av_h k) = true).
+
+  (* known dimensions satisfy `nonnan`; on an axis without known dimension a definite available space satisfies `fin` *)
+  Definition refl_key (nonnan fin : T -> Prop) (k : key) : Prop :=
+    (forall x, kd_w k = Some x -> nonnan x) /\ (forall x, kd_h k = Some x -> nonnan x) /\
+    (kd_w k = None -> forall v, av_w k = Definite v -> fin v) /\
+    (kd_h k = None -> forall v, av_h k = Definite v -> fin v).
+
+  (* an operation that does not displace the result stored under key k in mode m *)
+  Definition no_displace (k : key) (m : run_mode) (x : op) : Prop :=
+    match x with
+    | OClear => False
+    | OGet _ _ => True
+    | OStore k' m' _ =>
+        match m, m' with
+        | PerformLayout, PerformLayout => False
+        | ComputeSize, ComputeSize => slot_of_key k' <> slot_of_key k
+        | _, _ => True
+        end
+    end.
 End CacheModel.
 
 Arguments avail T : clear implicits.
